@@ -45,6 +45,7 @@ def check(ctx):
     r06_6(ctx)
     r06_7(ctx, m)
     r06_8(ctx, m)
+    r06_9(ctx, m)
     ctx.not_decided += [
         "that articulation points / biconnected components / the DFS order are the true ones on every graph (C15)",
         "independence from set/dict iteration order inside biccs (hash randomisation) beyond the orientation fix-up",
@@ -299,10 +300,23 @@ def r06_4_caller(ctx, m):
     # counter initialised to a constant before the loop, and not otherwise written in the loop
     inits = [st for st in run.node.body if isinstance(st, ast.Assign) and norm(st.targets[0]) == counter]
     ctx.check(len(inits) == 1 and isinstance(const_value(inits[0].value, None), int), "R06.4", run.where(m.loop), "the running BO counter is initialised once before the chromosome loop", key_of(run, "counter-init"))
-    writes = [st for st in walk_stmts(m.loop.body) if isinstance(st, (ast.Assign, ast.AugAssign)) and st is not m.call_stmt and counter in {norm(t) for t in (st.targets if isinstance(st, ast.Assign) else [st.target])}]
+    # every binding of the counter name inside the loop: plain / tuple / augmented assignments, loop targets, with-as
+    writes = []
+    for st in walk_stmts(m.loop.body):
+        if st is m.call_stmt:
+            continue
+        tgts = []
+        if isinstance(st, ast.Assign):
+            tgts = st.targets
+        elif isinstance(st, (ast.AugAssign, ast.AnnAssign, ast.For)):
+            tgts = [st.target]
+        elif isinstance(st, ast.With):
+            tgts = [i.optional_vars for i in st.items if i.optional_vars is not None]
+        if any(isinstance(x, ast.Name) and x.id == counter and isinstance(x.ctx, ast.Store) for t in tgts for x in ast.walk(t)):
+            writes.append(st)
     if kind == "add":
         writes = [w for w in writes if w is not proto[4]]
-    ctx.check(not writes, "R06.4", run.where(m.loop), "inside the chromosome loop the counter is written only from the ordering function's result", key_of(run, f"counter-writes:{[norm(w) for w in writes]}"))
+    ctx.check(not writes, "R06.4", run.where(m.loop), "inside the chromosome loop the counter is written only from the ordering function's result", key_of(run, f"counter-writes:{[norm(w)[:60] for w in writes]}"))
     # the tags stored are the pair computed by the ordering function for that node
     stores = [st for st in walk_stmts(m.success_body) if isinstance(st, ast.Assign) and isinstance(st.targets[0], ast.Subscript) and ".tags" in norm(st.targets[0])]
     by_key = {const_value(st.targets[0].slice): st for st in stores}
@@ -522,3 +536,16 @@ def r06_8(ctx, m):
     body_when_empty = empties[t] == pol  # True: the If body runs when the block has no inside node
     ok = body_when_empty != bubble_in_body
     ctx.check(ok, "R06.8", f.where(branch), "a block is a bubble exactly when it has nodes besides articulation points (emptiness of block - articulation points), otherwise a link between its two scaffold ends", key_of(f, f"block-kind:{t}:{pol}:{bubble_in_body}"), test=norm(branch.test))
+
+
+def r06_9(ctx, m):
+    """The caller recognises success by the truth of one returned value: on every return that reports an ordered component
+    that value must be truthy whenever the component is non-empty — in particular not an empty literal."""
+    dec = m.dec
+    n = 0
+    for r in m.ok_returns:
+        flag = r.value.elts[m.flag_pos]
+        n += 1
+        empty = (isinstance(flag, ast.Call) and norm(flag.func) in ("set", "list", "dict", "tuple", "frozenset") and not flag.args and not flag.keywords) or (isinstance(flag, (ast.List, ast.Tuple, ast.Set, ast.Dict)) and not (flag.elts if not isinstance(flag, ast.Dict) else flag.keys)) or (isinstance(flag, ast.Constant) and not flag.value)
+        ctx.check(not empty, "R06.9", dec.where(r), f"a return that reports an ordered component hands the caller a non-empty value in the position it tests for success (position {m.flag_pos})", key_of(dec, f"ok-flag-empty:{norm(flag)}:{r.value.elts[m.flag_pos + 1:] and norm(r.value.elts[-2])[:30]}"), flag=norm(flag))
+    ctx.require_count("R06.9", n, 1, dec.where(), "returns that report an ordered component")
